@@ -52,6 +52,7 @@ type Gen struct {
 	R      *Rng
 	Cases  []Case
 	Skips  map[string]int
+	Wrap   string // constructor put around every case added (a stream that embeds another stream's cases)
 }
 
 func newGen(prop string, seed int64, n int, out string, shard int, corpus, tier string) *Gen {
@@ -61,7 +62,12 @@ func newGen(prop string, seed int64, n int, out string, shard int, corpus, tier 
 
 func (g *Gen) Thorough() bool { return g.Tier == "thorough" }
 
-func (g *Gen) Add(c Case) { g.Cases = append(g.Cases, c) }
+func (g *Gen) Add(c Case) {
+	if g.Wrap != "" {
+		c.Coq = g.Wrap + " (" + c.Coq + ")"
+	}
+	g.Cases = append(g.Cases, c)
+}
 
 func (g *Gen) Skip(why string) { g.Skips[why]++ }
 
